@@ -53,8 +53,11 @@ func isMutator(o int) bool {
 	return false
 }
 
-// kvState: value of key a and b, -1 = absent
-type kvState [2]int
+// kvState: value of key a and b (-1 = absent), and whether the 130 filler keys of the big merge
+// are present (0/1)
+type kvState [3]int
+
+const fillerKeys = 130
 
 type kvOut struct {
 	v    int
@@ -62,6 +65,7 @@ type kvOut struct {
 	n    int
 	all  kvState
 	fail bool
+	fill int // number of filler keys a listing contained
 }
 
 func kvStep(st kvState, op int, out kvOut) (bool, kvState) {
@@ -85,16 +89,19 @@ func kvStep(st kvState, op int, out kvOut) (bool, kvState) {
 		st[0] = -1
 		return true, st
 	case oLen:
-		n := 0
-		for _, v := range st {
+		n := fillerKeys * st[2]
+		for _, v := range st[:2] {
 			if v >= 0 {
 				n++
 			}
 		}
 		return out.n == n, st
 	case oKeys, oGetAll:
-		// Keys: presence only; GetAll: presence and values
-		for i := range st {
+		// Keys: presence only; GetAll: presence and values; the filler keys all or none
+		if out.fill != fillerKeys*st[2] {
+			return false, st
+		}
+		for i := range st[:2] {
 			if (st[i] >= 0) != (out.all[i] >= 0) {
 				return false, st
 			}
@@ -104,15 +111,17 @@ func kvStep(st kvState, op int, out kvOut) (bool, kvState) {
 		}
 		return true, st
 	case oMerge:
-		return true, kvState{3, 3}
+		st[0], st[1] = 3, 3
+		return true, st
 	case oMergeBig:
 		st[1] = 3 // the big batch does not contain key a
+		st[2] = 1
 		return true, st
 	case oMergeB4:
 		st[1] = 4
 		return true, st
 	case oClear:
-		return true, kvState{-1, -1}
+		return true, kvState{-1, -1, 0}
 	case oGetIntA:
 		want := 0
 		if st[0] >= 0 {
@@ -212,6 +221,8 @@ func doStoreOp(s *flyt.SharedStore, op int) kvOut {
 				o.all[0] = 0
 			case "b":
 				o.all[1] = 0
+			default:
+				o.fill++
 			}
 		}
 	case oGetAll:
@@ -223,6 +234,8 @@ func doStoreOp(s *flyt.SharedStore, op int) kvOut {
 				o.all[0] = i
 			case "b":
 				o.all[1] = i
+			default:
+				o.fill++
 			}
 		}
 	case oMerge:
@@ -312,7 +325,7 @@ func (sc linScn) scenario() Scenario {
 		alphabet = core3Ops
 	}
 	if sc.big {
-		alphabet = []int{oSetA1, oSetA2, oSetB2, oGetA, oGetB, oDelA, oMergeBig, oMergeB4}
+		alphabet = []int{oSetA1, oSetA2, oSetB2, oGetA, oGetB, oDelA, oMergeBig, oMergeB4, oLen, oGetAll}
 	} else if !sc.core3 {
 		alphabet = alphabet[:oMergeBig] // the big merge has its own scenarios
 	}
